@@ -236,21 +236,22 @@ func concOps() []concOp {
 			out, err := textwire.EvaluateString("{{ label.reverse() }}|{{ label.upper() }}|{{ label.capitalize() }}|{{ label.at(1) }}|{{ label.truncate(3) }}|{{ (label + who).reverse() }}|{{ label.split(\"\").join(\"-\") }}|{{ label.len() }}", data)
 			return fmt.Sprintf("out=%s err=%v", out, err)
 		}},
-		// calls that fail because of their data, next to a call that reads a name its own data lacks (it must fail)
+		// calls that fail because of their data (the entry that cannot be bound comes last in key order, after entries that
+		// can), next to a call that reads a name its own data lacks (it must fail)
 		{"EvaluateString(unsupported data)", false, func(tpl *textwire.Template, data map[string]any, abs string) string {
-			out, err := textwire.EvaluateString("{{ secret }} {{ who }}", map[string]any{"secret": "secret of " + fmt.Sprint(data["who"]), "who": data["who"], "ch": make(chan int)})
+			out, err := textwire.EvaluateString("{{ a_secret }} {{ who }}", map[string]any{"a_secret": "secret of " + fmt.Sprint(data["who"]), "who": data["who"], "zz_ch": make(chan int)})
 			return fmt.Sprintf("out=%s err=%v", out, err)
 		}},
 		{"EvaluateString(loop as data)", false, func(tpl *textwire.Template, data map[string]any, abs string) string {
-			out, err := textwire.EvaluateString("{{ secret }} {{ who }}", map[string]any{"secret": "secret of " + fmt.Sprint(data["who"]), "who": data["who"], "loop": 1})
+			out, err := textwire.EvaluateString("{{ a_secret }} {{ who }}", map[string]any{"a_secret": "secret of " + fmt.Sprint(data["who"]), "who": data["who"], "loop": 1})
 			return fmt.Sprintf("out=%s err=%v", out, err)
 		}},
 		{"EvaluateString(reads a name its data lacks)", false, func(tpl *textwire.Template, data map[string]any, abs string) string {
-			out, err := textwire.EvaluateString("{{ gid }} {{ secret }}", map[string]any{"gid": data["gid"]})
+			out, err := textwire.EvaluateString("{{ gid }} {{ a_secret }}", map[string]any{"gid": data["gid"]})
 			return fmt.Sprintf("out=%s err=%v", out, err)
 		}},
 		{"String(plain, unsupported data)", false, func(tpl *textwire.Template, data map[string]any, abs string) string {
-			return str("plain")(tpl, map[string]any{"gid": data["gid"], "who": data["who"], "secret": "s", "f": func() {}}, abs)
+			return str("plain")(tpl, map[string]any{"gid": data["gid"], "who": data["who"], "a_secret": "s", "zz_f": func() {}}, abs)
 		}},
 		{"EvaluateFile(plain)", false, func(tpl *textwire.Template, data map[string]any, abs string) string {
 			out, err := textwire.EvaluateFile(abs, data)
